@@ -165,11 +165,12 @@ func (w *c13World) key() string {
 // the document tree, the full-capacity views of both slots, the compiled
 // expressions and the binding maps.
 type c13Print struct {
-	tree   uint64
-	slots  [2]string
-	exprs  []uint64
-	ns     string
-	varKey string
+	tree    uint64
+	slots   [2]string
+	exprs   []uint64
+	ns      string
+	varKey  string
+	globals map[string]uint64 // package-level variables of the library (overlay builds only)
 }
 
 func (w *c13World) opaque() map[unsafe.Pointer]int {
@@ -431,6 +432,9 @@ func C13(c *run.Check) {
 	}
 	ops := c13Ops()
 	memo := newC13Memo()
+	// every package-level variable of the library, incl. the generated tables
+	// (start / end of the run; the small ones around every explored call)
+	globals0 := libGlobalsPrint(true)
 	type st struct {
 		doc  int
 		hist []c13Op
@@ -504,12 +508,25 @@ func C13(c *run.Check) {
 	if c.Violations() == 0 {
 		c13ParserOrder(c)
 	}
+	if globals0 != nil {
+		// not a violation by itself: package-level state is not something the caller
+		// can observe directly (a cache or a counter is legitimate); its effect on later
+		// results is what the history-independence comparison above decides
+		if d := libGlobalsDiff(globals0, libGlobalsPrint(true)); d != "" {
+			c.Set("library_package_level_state_changed_by_the_explored_calls", d)
+		} else {
+			c.Set("library_package_level_state_changed_by_the_explored_calls", "no")
+		}
+		c.Set("library_package_level_variables_fingerprinted", len(globals0))
+	} else {
+		c.Set("library_package_level_variables_fingerprinted", "none (harness built without the globals overlay)")
+	}
 	c.Set("max_depth_completed", completed)
 	c.Set("operations_per_state", len(ops))
 	if completed < maxDepth {
 		c.Exhaustive = false
 	}
-	c.Rule = fmt.Sprintf("explicit-state BFS over call histories on 2 documents: state = (contents, length and capacity of the two caller-held node-set slots); %d operations per state (Exec of %d menu expressions incl. unions of caller variables, reverse axes, filters, from 3 context nodes (root, element, attribute), optionally keeping the result - possibly re-sliced to one element with spare capacity - in a slot; Unmarshal into slice and struct; BuildExpr replacing a compiled object); every transition = replay of the shortest history on fresh real objects + 1 call; after the call deep fingerprints (unexported fields, spare capacity, cyclic pointers) of the document tree, both slots' full-capacity views, all compiled expressions and the caller's binding maps must be unchanged, the result must equal the result of the same call with the same argument values in every other history, and a reused compiled expression must agree with a freshly built one; plus, for every expression of the C08 AST universe, every ambiguous alternative list of the built parse forest rotated so that each alternative comes first once (covering every order the parser's map iteration can produce, one list at a time): same results required", len(ops), len(c13Menu))
+	c.Rule = fmt.Sprintf("explicit-state BFS over call histories on 2 documents: state = (contents, length and capacity of the two caller-held node-set slots); %d operations per state (Exec of %d menu expressions incl. unions of caller variables, reverse axes, filters, from 3 context nodes (root, element, attribute), optionally keeping the result - possibly re-sliced to one element with spare capacity - in a slot; Unmarshal into slice and struct; BuildExpr replacing a compiled object); every transition = replay of the shortest history on fresh real objects + 1 call; after the call deep fingerprints (unexported fields, spare capacity, cyclic pointers) of the document tree, both slots' full-capacity views, all compiled expressions and the caller's binding maps must be unchanged (package-level variables of the library, reached through a generated build overlay, are fingerprinted too and reported, but a change there is not a violation by itself), the result must equal the result of the same call with the same argument values in every other history, and a reused compiled expression must agree with a freshly built one; plus, for every expression of the C08 AST universe, every ambiguous alternative list of the built parse forest rotated so that each alternative comes first once (covering every order the parser's map iteration can produce, one list at a time): same results required", len(ops), len(c13Menu))
 	c.Assume("fingerprints are computed by reflection over the real objects (harness/snap); parser-order exploration permutes one alternative list at a time (<=1 deviation from the built order)")
 }
 
